@@ -77,20 +77,31 @@ type Opts struct {
 	Tier     string
 	VerifDir string
 	Seed     int
+	As       string // property id to report under (default C08); other ids run the model as that property's lock premise
 }
 
 // Run decides C08 and returns the process exit code.
 func Run(o Opts) int {
 	t0 := time.Now()
+	as := o.As
+	if as == "" {
+		as = "C08"
+	}
 	outDir := filepath.Join(o.VerifDir, "out", "C08")
+	evPath := filepath.Join(o.VerifDir, "evidence", "C08.json")
+	if as != "C08" {
+		// run as the lock premise of another property: evidence goes to that property's out directory
+		outDir = filepath.Join(o.VerifDir, "out", as, "lock")
+		evPath = filepath.Join(outDir, "evidence.json")
+	}
 	os.RemoveAll(outDir)
 	os.MkdirAll(filepath.Join(outDir, "replay"), 0o755)
-	evPath := filepath.Join(o.VerifDir, "evidence", "C08.json")
 	os.MkdirAll(filepath.Dir(evPath), 0o755)
 	var results []queryResult
 	var inconclusive []string
 	violations := 0
 	var violationLines []string
+	var inductionFailures []string
 	states, transitions := 0, 0
 	var samples []interface{}
 	var funcs []string
@@ -205,8 +216,7 @@ func Run(o Opts) int {
 				}
 				m := gstate{lock: c.Ite(sel, ns.lock, next.lock), counter: c.Ite(sel, ns.counter, next.counter), done: c.Ite(sel, ns.done, next.done)}
 				for k := range ns.th {
-					a, bb := ns.th[k], next.th[k]
-					m.th = append(m.th, tstate{pc: c.Ite(sel, a.pc, bb.pc), k: c.Ite(sel, a.k, bb.k), bx: c.Ite(sel, a.bx, bb.bx), cx: c.Ite(sel, a.cx, bb.cx), zf: c.Ite(sel, a.zf, bb.zf), tmp: c.Ite(sel, a.tmp, bb.tmp)})
+					m.th = append(m.th, iteTS(c, sel, ns.th[k], next.th[k]))
 				}
 				next = m
 			}
@@ -243,7 +253,7 @@ func Run(o Opts) int {
 			violations++
 			path := filepath.Join(outDir, "replay", name+".json")
 			writeJSON(path, map[string]interface{}{"query": name, "meaning": "a schedule after which two tasks hold the lock, an update is lost, a failed TryToAcquire changed the lock word, or a register fact fails", "trace": trace})
-			violationLines = append(violationLines, fmt.Sprintf("VIOLATION property=C08 replay=%s", path))
+			violationLines = append(violationLines, fmt.Sprintf("VIOLATION property="+as+" replay=%s", path))
 			samples = append(samples, map[string]interface{}{"query": name, "counterexample_schedule": trace})
 		default:
 			inconclusive = append(inconclusive, name+": solver gave no answer")
@@ -294,7 +304,8 @@ func Run(o Opts) int {
 			var watch []named
 			watch = append(watch, named{"lock", st.lock}, named{"counter", st.counter}, named{"done", st.done})
 			for k, ts := range st.th {
-				watch = append(watch, named{fmt.Sprintf("pc%d", k), ts.pc}, named{fmt.Sprintf("k%d", k), ts.k}, named{fmt.Sprintf("bx%d", k), ts.bx})
+				watch = append(watch, named{fmt.Sprintf("pc%d", k), ts.pc}, named{fmt.Sprintf("k%d", k), ts.k}, named{fmt.Sprintf("bx%d", k), ts.bx},
+					named{fmt.Sprintf("meth%d", k), ts.meth}, named{fmt.Sprintf("node%d", k), ts.node}, named{fmt.Sprintf("hold%d", k), ts.hold}, named{fmt.Sprintf("wrote%d", k), ts.wrote})
 			}
 			name := fmt.Sprintf("Q2-step-T%d-thread%d", T, t)
 			r, txt := decide(name, []*smt.Term{s.inv(st), s.safe(st), nz, c.Not(goal)}, watch)
@@ -306,12 +317,11 @@ func Run(o Opts) int {
 				vals := watchValues(txt, watch)
 				pre := map[string]interface{}{"lock": vals["lock"], "counter": vals["counter"], "done": vals["done"], "moving_thread": t}
 				for k := range st.th {
-					pre[fmt.Sprintf("thread%d", k)] = s.pcName(vals[fmt.Sprintf("pc%d", k)])
+					pre[fmt.Sprintf("thread%d", k)] = fmt.Sprintf("%s method=%d node=%d hold=%d wrote=%d k=%d", s.pcName(vals[fmt.Sprintf("pc%d", k)]), vals[fmt.Sprintf("meth%d", k)], vals[fmt.Sprintf("node%d", k)], vals[fmt.Sprintf("hold%d", k)], vals[fmt.Sprintf("wrote%d", k)], vals[fmt.Sprintf("k%d", k)])
 				}
-				violations++
 				path := filepath.Join(outDir, "replay", name+".json")
 				writeJSON(path, map[string]interface{}{"query": name, "meaning": "a state satisfying the lock invariant from which one step of the real code breaks mutual exclusion / loses an update / breaks the invariant", "pre_state": pre})
-				violationLines = append(violationLines, fmt.Sprintf("VIOLATION property=C08 replay=%s", path))
+				inductionFailures = append(inductionFailures, path)
 				samples = append(samples, map[string]interface{}{"query": name, "pre_state": pre})
 			default:
 				inconclusive = append(inconclusive, name+": solver gave no answer")
@@ -319,15 +329,37 @@ func Run(o Opts) int {
 		}
 		// a release really frees the lock: holder releases, then another task's TryToAcquire succeeds
 		{
-			s1, _ := s.step(st, 0)
-			s2, _ := s.step(s1, 1)
-			hyp := []*smt.Term{s.inv(st), nz, c.Eq(st.th[0].pc, c.Const(8, pRel)), c.Eq(st.th[1].pc, c.Const(8, pIdle)), c.Cmp("bvult", st.th[1].k, c.Const(8, 2)), c.Not(s.opIsAcquire(1, st.th[1].k))}
+			// thread 0 is inside Release: run it to completion (at most 4 macro-steps), then thread 1 tries (at most 4 macro-steps)
+			iteGS := func(cond *smt.Term, a, b gstate) gstate {
+				r := gstate{lock: c.Ite(cond, a.lock, b.lock), counter: c.Ite(cond, a.counter, b.counter), done: c.Ite(cond, a.done, b.done)}
+				for k := range a.th {
+					r.th = append(r.th, iteTS(c, cond, a.th[k], b.th[k]))
+				}
+				return r
+			}
+			cur := st
+			for i := 0; i < 4; i++ {
+				nx, _ := s.step(cur, 0)
+				cur = iteGS(cur.th[0].hold, nx, cur)
+			}
+			released := c.Not(cur.th[0].hold)
+			s2 := cur
+			for i := 0; i < 4; i++ {
+				nx, _ := s.step(s2, 1)
+				moving := c.Or(c.Eq(s2.th[1].pc, c.Const(8, pIdle)), c.Eq(s2.th[1].pc, c.Const(8, pMeth)))
+				if i > 0 {
+					moving = c.Eq(s2.th[1].pc, c.Const(8, pMeth))
+				}
+				s2 = iteGS(moving, nx, s2)
+			}
+			inRel := c.And(c.Eq(st.th[0].pc, c.Const(8, pMeth)), c.Eq(st.th[0].meth, c.Const(8, 2)))
+			hyp := []*smt.Term{s.inv(st), nz, inRel, c.Eq(st.th[1].pc, c.Const(8, pIdle)), c.Cmp("bvult", st.th[1].k, c.Const(8, 2)), c.Not(s.opIsAcquire(1, st.th[1].k)), released}
 			r, _ := decide(fmt.Sprintf("Q2-release-frees-lock-T%d", T), append(hyp, c.Not(c.Eq(s2.th[1].pc, c.Const(8, pCS1)))), nil)
 			if r == "sat" {
 				violations++
 				path := filepath.Join(outDir, "replay", fmt.Sprintf("Q2-release-frees-lock-T%d.json", T))
 				writeJSON(path, map[string]interface{}{"meaning": "after the holder's Release another task's TryToAcquire still fails: the lock cannot be taken again"})
-				violationLines = append(violationLines, fmt.Sprintf("VIOLATION property=C08 replay=%s", path))
+				violationLines = append(violationLines, fmt.Sprintf("VIOLATION property="+as+" replay=%s", path))
 			} else if r != "unsat" {
 				inconclusive = append(inconclusive, "release-frees-lock query: no answer")
 			} else {
@@ -336,22 +368,84 @@ func Run(o Opts) int {
 		}
 		// after a release the lock can be taken again: from any invariant state with the lock free, TryToAcquire succeeds
 		{
-			ns, _ := s.step(st, 0)
+			cur := st
+			for i := 0; i < 4; i++ {
+				nx, _ := s.step(cur, 0)
+				moving := c.Eq(cur.th[0].pc, c.Const(8, pMeth))
+				if i == 0 {
+					moving = c.True()
+				}
+				g2 := gstate{lock: c.Ite(moving, nx.lock, cur.lock), counter: c.Ite(moving, nx.counter, cur.counter), done: c.Ite(moving, nx.done, cur.done)}
+				for k := range nx.th {
+					g2.th = append(g2.th, iteTS(c, moving, nx.th[k], cur.th[k]))
+				}
+				cur = g2
+			}
+			ns := cur
 			hyp := []*smt.Term{s.inv(st), nz, c.Eq(st.lock, c.Const(32, 0)), c.Eq(st.th[0].pc, c.Const(8, pIdle)), c.Cmp("bvult", st.th[0].k, c.Const(8, 2)), c.Not(s.opIsAcquire(0, st.th[0].k))}
 			r, _ := decide(fmt.Sprintf("Q2-free-lock-can-be-taken-T%d", T), append(hyp, c.Not(c.Eq(ns.th[0].pc, c.Const(8, pCS1)))), nil)
 			if r == "sat" {
 				violations++
 				path := filepath.Join(outDir, "replay", fmt.Sprintf("Q2-free-lock-T%d.json", T))
 				writeJSON(path, map[string]interface{}{"meaning": "TryToAcquire on a free lock does not return true"})
-				violationLines = append(violationLines, fmt.Sprintf("VIOLATION property=C08 replay=%s", path))
+				violationLines = append(violationLines, fmt.Sprintf("VIOLATION property="+as+" replay=%s", path))
 			} else if r != "unsat" {
 				inconclusive = append(inconclusive, "free-lock query: no answer")
 			} else {
 				states++
 			}
+			// progress of a blocking acquire: with the lock word free and nobody else moving, a thread that is
+			// anywhere inside Acquire gets the lock within acqSteps macro-steps (it does not spin past a free lock)
+			{
+				const acqSteps = 12
+				cur := st
+				for i := 0; i < acqSteps; i++ {
+					nx, _ := s.step(cur, 0)
+					moving := c.Not(c.Eq(cur.th[0].pc, c.Const(8, pCS1)))
+					g2 := gstate{lock: c.Ite(moving, nx.lock, cur.lock), counter: c.Ite(moving, nx.counter, cur.counter), done: c.Ite(moving, nx.done, cur.done)}
+					for k := range nx.th {
+						g2.th = append(g2.th, iteTS(c, moving, nx.th[k], cur.th[k]))
+					}
+					cur = g2
+				}
+				inAcq := c.And(c.Eq(st.th[0].pc, c.Const(8, pIdle)), c.And(c.Cmp("bvult", st.th[0].k, c.Const(8, uint64(s.M))), s.opIsAcquire(0, st.th[0].k)))
+				inAcq = c.Or(inAcq, c.And(c.Eq(st.th[0].pc, c.Const(8, pMeth)), c.Eq(st.th[0].meth, c.Const(8, 0))))
+				for _, p := range s.bounds {
+					inAcq = c.Or(inAcq, c.And(c.Eq(st.th[0].pc, c.Const(8, uint64(p))), c.Eq(st.th[0].meth, c.Const(8, 0))))
+				}
+				hyp := []*smt.Term{s.inv(st), s.safe(st), nz, c.Eq(st.lock, c.Const(32, 0)), inAcq}
+				name := fmt.Sprintf("Q2-acquire-progress-T%d", T)
+				w0 := []named{{"pc0", st.th[0].pc}, {"meth0", st.th[0].meth}, {"node0", st.th[0].node}, {"cx0", st.th[0].cx}, {"bx0", st.th[0].bx}}
+				r, txt := decide(name, append(hyp, c.Not(c.Eq(cur.th[0].pc, c.Const(8, pCS1)))), w0)
+				if r == "sat" {
+					violations++
+					path := filepath.Join(outDir, "replay", name+".json")
+					writeJSON(path, map[string]interface{}{"query": name, "meaning": fmt.Sprintf("a blocking Acquire that runs alone for %d macro-steps with the lock word free does not take the lock (after a release the lock cannot be taken again)", acqSteps), "pre_state": func() map[string]interface{} {
+						v := watchValues(txt, w0)
+						return map[string]interface{}{"lock": 0, "thread0": fmt.Sprintf("%s method=%d node=%d bx=%d cx=%d", s.pcName(v["pc0"]), v["meth0"], v["node0"], v["bx0"], v["cx0"])}
+					}()})
+					violationLines = append(violationLines, fmt.Sprintf("VIOLATION property="+as+" replay=%s", path))
+				} else if r != "unsat" {
+					inconclusive = append(inconclusive, name+": no answer")
+				} else {
+					states++
+				}
+			}
 		}
 	}
 
+	// an induction counterexample may start in an unreachable state: it is a violation only together with a
+	// bounded-model counterexample (a real schedule from the initial state); alone it is inconclusive
+	if len(inductionFailures) > 0 {
+		if violations > 0 {
+			for _, p := range inductionFailures {
+				violations++
+				violationLines = append(violationLines, fmt.Sprintf("VIOLATION property="+as+" replay=%s", p))
+			}
+		} else {
+			inconclusive = append(inconclusive, fmt.Sprintf("one-step induction fails (%d queries) but the bounded model finds no schedule: the invariant is not inductive for this code, or the bound is too small: %s", len(inductionFailures), inductionFailures[0]))
+		}
+	}
 	exit := 0
 	for _, l := range violationLines {
 		fmt.Println(l)
@@ -372,13 +466,13 @@ func Run(o Opts) int {
 		solverTime += r.Seconds
 	}
 	ev := map[string]interface{}{
-		"property_id": "C08", "tier": o.Tier, "seed": o.Seed, "level": "model_checking",
+		"property_id": as, "tier": o.Tier, "seed": o.Seed, "level": "model_checking",
 		"coverage": map[string]interface{}{
 			"states": states, "transitions": transitions, "traces_validated_against_impl": 0, "samples": samples,
 			"rule":              "state = one discharged query (a bounded model over all schedules of its length, or one inductive step from all invariant states); transition = scheduler steps x threads encoded",
 			"functions_encoded": funcs, "bounds": bounds, "queries": results, "solver_time_s": solverTime,
 			"technique":         "transition system generated from spinlock_amd64.s and the go/ssa of the Spinlock methods (macro-step folding of thread-local instructions), bounded model checking with a symbolic schedule plus one-step induction, decided by z3 (cross-checked by z3 5.1.0)",
-			"not_covered":       []string{"fairness/liveness of Acquire under an unfair schedule", "more threads than listed", "yieldFn is modelled as a call without effect on the lock word", "native replay: a schedule at instruction granularity cannot be forced on real hardware; counterexamples are reported as traces"},
+			"not_covered":       []string{"fairness/liveness of Acquire under an unfair schedule (only solo progress on a free lock is checked)", "more threads than listed", "yieldFn is modelled as a call without effect on the lock word", "native replay: a schedule at instruction granularity cannot be forced on real hardware; counterexamples are reported as traces"},
 		},
 		"assumptions": []string{"sequential consistency + atomic locked XCHG (x86-TSO differs only by store->load reordering through the store buffer, which locked instructions drain)", "aligned 32-bit MOVL is atomic", "client protocol: release only by the holder, no re-acquire while holding",
 			"z3 4.8.12 / z3 5.1.0 / cvc5 answers"},
@@ -386,6 +480,6 @@ func Run(o Opts) int {
 	}
 	writeJSON(evPath, ev)
 	verdict := map[int]string{0: "HOLDS (within bounds)", 1: "VIOLATION", 3: "INCONCLUSIVE"}[exit]
-	fmt.Printf("[C08] %s wall=%.1fs\n", verdict, time.Since(t0).Seconds())
+	fmt.Printf("["+as+" lock model] %s wall=%.1fs\n", verdict, time.Since(t0).Seconds())
 	return exit
 }
